@@ -1,6 +1,16 @@
 package schedsc
 
-import "fmt"
+import (
+	"fmt"
+	"go/ast"
+	"go/parser"
+	"go/token"
+	"os"
+	"path/filepath"
+	"sort"
+	"strconv"
+	"strings"
+)
 
 // AllDAGs returns, for k jobs in enqueue order, every dependency assignment
 // deps(i) subset of {0..i-1}: 2^(k(k-1)/2) graphs.
@@ -238,6 +248,59 @@ func goexitCapacity(ns []int, maxG int) []Scenario {
 	return out
 }
 
+// wideLimits are the limits of the boundary probes: one more than every small
+// integer literal of the scheduler's own sources (a literal is where a clamp,
+// a buffer size or a batch size would sit), plus a fixed ladder.
+func wideLimits() []int {
+	set := map[int]bool{5: true, 17: true, 65: true, 129: true}
+	repo := os.Getenv("VERIF_REPO")
+	if repo == "" {
+		repo = "/repo"
+	}
+	files, _ := filepath.Glob(filepath.Join(repo, "scheduler", "*.go"))
+	files = append(files, filepath.Join(repo, "scheduler.go"))
+	fset := token.NewFileSet()
+	for _, f := range files {
+		if strings.HasSuffix(f, "_test.go") {
+			continue
+		}
+		af, err := parser.ParseFile(fset, f, nil, 0)
+		if err != nil {
+			continue
+		}
+		ast.Inspect(af, func(n ast.Node) bool {
+			if l, ok := n.(*ast.BasicLit); ok && l.Kind == token.INT {
+				if v, err := strconv.ParseInt(l.Value, 0, 32); err == nil && v >= 3 && v <= 256 {
+					set[int(v)+1] = true
+				}
+			}
+			return true
+		})
+	}
+	var out []int
+	for v := range set {
+		out = append(out, v)
+	}
+	sort.Ints(out)
+	return out
+}
+
+// wideCapacity: with limit N, N jobs that must all be running at once (and one
+// more behind them); the capacity clause of C03 at limits beyond the ones the
+// exhaustive families reach.
+func wideCapacity(probe int) []Scenario {
+	var out []Scenario
+	for _, n := range wideLimits() {
+		s := Scenario{N: n, COE: true, Probe: probe}
+		for i := 0; i < n; i++ {
+			s.Jobs = append(s.Jobs, JobSpec{Out: Barrier})
+		}
+		s.Jobs = append(s.Jobs, JobSpec{Out: OK})
+		out = append(out, s)
+	}
+	return out
+}
+
 // ownGoexit: a job that cancels its own per-job context and then kills its
 // goroutine, followed by jobs (live context) that need the full capacity.
 func ownGoexit(ns []int) []Scenario {
@@ -301,6 +364,11 @@ func Family(prop, tier string) ([]Scenario, error) {
 		out = append(out, shapes([][][]int{Indep4}, n12, []bool{true}, []string{OK}, -1)...)
 		out = append(out, goexitCapacity(n12, 2)...)
 		out = append(out, ownGoexit(n12)...)
+		if th {
+			out = append(out, wideCapacity(256)...)
+		} else {
+			out = append(out, wideCapacity(24)...)
+		}
 		// census: same N, growing number of independent jobs, with and without Goexit
 		for _, n := range n12 {
 			for k := n + 1; k <= n+3 && k <= 4; k++ {
